@@ -28,29 +28,29 @@ type Clause struct {
 }
 
 type FuncSpec struct {
-	Name       string // WriteLogString, (*BaseLayout).GetFileLine, strings.TrimSpace, Refresh/findLoggerForTag
-	IsIface    bool
-	Extern     bool // assumed contract (from externs file)
-	Params     []string
-	Results    []string
-	Pure       bool
-	PureConst  bool // pure and independent of the heap: a function of its arguments only
-	Inline     bool
-	Trusted    bool // contract assumed, body not verified (listed as assumption)
-	Clauses    []*Clause
-	Replay     map[string]string // replay variable -> expression text
-	ReplayKeys []string
+	Name        string // WriteLogString, (*BaseLayout).GetFileLine, strings.TrimSpace, Refresh/findLoggerForTag
+	IsIface     bool
+	Extern      bool // assumed contract (from externs file)
+	Params      []string
+	Results     []string
+	Pure        bool
+	PureConst   bool // pure and independent of the heap: a function of its arguments only
+	Inline      bool
+	Trusted     bool // contract assumed, body not verified (listed as assumption)
+	Clauses     []*Clause
+	Replay      map[string]string // replay variable -> expression text
+	ReplayKeys  []string
 	Synchronous []string // property ids: the body must not spawn, send on channels or defer
-	IsSync     bool
-	Recovers   bool // a deferred handler: calls recover() and turns a panic into results
-	NoOverflow []string // property ids: integer arithmetic and narrowing conversions must not wrap
-	NoPanic    []string // property ids for implicit-panic obligations
-	HasNoPanic bool
-	Floor      int // minimal number of obligations expected
-	File       string
-	Line       int
-	Callee     map[string]string // free variable name -> spec name it is assumed to hold
-	Props      []string          // union
+	IsSync      bool
+	Recovers    bool     // a deferred handler: calls recover() and turns a panic into results
+	NoOverflow  []string // property ids: integer arithmetic and narrowing conversions must not wrap
+	NoPanic     []string // property ids for implicit-panic obligations
+	HasNoPanic  bool
+	Floor       int // minimal number of obligations expected
+	File        string
+	Line        int
+	Callee      map[string]string // free variable name -> spec name it is assumed to hold
+	Props       []string          // union
 }
 
 type GhostField struct {
@@ -395,6 +395,25 @@ func (sf *SpecFile) load(path string, extern bool) error {
 					cur.Replay[k] = strings.TrimSpace(kv[eq+1:])
 					cur.ReplayKeys = append(cur.ReplayKeys, k)
 				}
+			case first == "rangefunc":
+				// rangefunc K invariant[Cxx:label] expr   (invariant of the K-th range-over-func loop; $k items done)
+				fs := strings.SplitN(rest, " ", 2)
+				n, err := strconv.Atoi(fs[0])
+				if err != nil || len(fs) < 2 {
+					return fail(l, "bad rangefunc clause")
+				}
+				m := clauseHead.FindStringSubmatch(strings.TrimSpace(fs[1]))
+				if m == nil || m[1] != "invariant" {
+					return fail(l, "bad rangefunc clause %q", fs[1])
+				}
+				e, err := parseExpr(m[3])
+				if err != nil {
+					return fail(l, "%v", err)
+				}
+				props, label := parsePropsLabel(m[2])
+				key := fmt.Sprintf("rangefunc%d.invariant", n)
+				counts[key]++
+				cur.Clauses = append(cur.Clauses, &Clause{Kind: "rfinvariant", Loop: n, Props: props, Label: label, Text: m[3], Expr: e, File: path, Line: l.line, Index: counts[key]})
 			case first == "loop":
 				fs := strings.SplitN(rest, " ", 2)
 				n, err := strconv.Atoi(fs[0])
